@@ -215,12 +215,14 @@ theorem appendVals_np (r l : Nat) (vs : List Val) : NP (appendVals r l vs) := by
 macro_rules | `(tactic| np_lem) => `(tactic| exact appendVals_np _ _ _)
 theorem newListExact_np (vs : List Val) : NP (newListExact vs) := by unfold newListExact; np
 macro_rules | `(tactic| np_lem) => `(tactic| exact newListExact_np _)
+theorem appendEach_np : ∀ (vs : List Val) (r l : Nat), NP (appendEach vs r l)
+  | [], r, l => by unfold appendEach; exact NPQ.pure _ _ trivial
+  | v :: vs, r, l => by
+    unfold appendEach
+    refine NPQ.bind _ _ (fun _ => True) _ (appendVals_np r l [v]) (fun x _ => ?_)
+    cases x <;> first | exact appendEach_np vs _ _ | exact NPQ.pure _ _ trivial
 theorem newListLit_np (vs : List Val) : NP (newListLit vs) := by
-  unfold newListLit
-  simp only []
-  refine NPQ.bind _ _ (fun _ => True) _ ?_ (fun _ _ => ?_)
-  · apply NPQ.forIn; intro a _ b; np
-  · np
+  unfold newListLit; exact appendEach_np _ _ _
 macro_rules | `(tactic| np_lem) => `(tactic| exact newListLit_np _)
 theorem newChild_np (p : Nat) (nm : String) : NP (newChild p nm) := by unfold newChild; np
 macro_rules | `(tactic| np_lem) => `(tactic| exact newChild_np _ _)
